@@ -291,6 +291,25 @@ def _one(case, bad, tags, ats, voc_tag, voc_at):
             p = d.get_parent()
             if (p.offset if p is not None else None) != want:
                 bad('nav.parent', want, p.offset if p is not None else None)
+        # after the children-first walk the sequential enumeration of the same object is still the encoded sequence
+        if [d.offset for d in cu.iter_DIEs()] != offs:
+            bad('dies.offsets.after_walk', offs, [d.offset for d in cu.iter_DIEs()])
+    # ---- order 4: one level of children only (sibling shortcuts leave nested subtrees unvisited), then everything; and
+    # ---- order 5: parent of the last entry reached by reference, then everything - each on a fresh object
+    for order in ('one_level', 'parent_of_last'):
+        di5 = _mk(case)
+        for cu, uv in zip(_units(di5, case), case['units']):
+            offs = [d['off'] for d in uv['dies']]
+            if order == 'one_level':
+                for k in cu.get_top_DIE().iter_children():
+                    if k.has_children:
+                        next(k.iter_children(), None)
+            elif case['mode'] != 'types':
+                last = [dv for dv in uv['dies'] if not dv['isnull']][-1]
+                di5.get_DIE_from_refaddr(last['off']).get_parent()
+            got = [d.offset for d in cu.iter_DIEs()]
+            if got != offs:
+                bad('dies.offsets.after_' + order, offs, got)
     # ---- type units by signature
     if case['mode'] == 'types':
         di4 = _mk(case)
